@@ -92,7 +92,7 @@ theorem step_list (xs : List Val) (st : LStep) (hg : Good xs) (ha : admissibleL 
   | pop i => exact step_pop xs i nt hx
   | remove v => exact step_remove xs v nt hx
   | clear => rfl
-  | sort rev => exact step_sort xs rev nt hx
+  | sort rev key => exact step_sort xs rev key nt hx
   | reverse => exact step_reverse xs nt hx
   | iadd vs => exact step_iadd xs vs nt hx (by simpa [admissibleL] using ha)
   | imul n => exact step_imul xs n nt hg
@@ -340,7 +340,7 @@ theorem specL_good (xs : List Val) (st : LStep) (hg : Good xs) (ha : admissibleL
       exact hm.of_mem (fun x hx => (List.eraseIdx_sublist xs _).subset hx)
     · cases hy
   | clear => exact Good.nil
-  | sort rev =>
+  | sort rev key =>
     apply lift
     intro ys hy
     exact hm.of_mem (mem_pySort hy)
